@@ -226,15 +226,24 @@ func runCancelCase(c cancelCase) *Violation {
 	return nil
 }
 
-// waitLive waits (bounded) for the asynchronous index closers.
+// waitLive waits (bounded, generously: index closers run in their own
+// goroutines and the machine may be busy) for the live-index count to return
+// to the baseline. Only a genuine leak pays the full wait.
 func waitLive(baseline int64) bool {
-	for i := 0; i < 200; i++ {
+	deadline := time.Now().Add(10 * time.Second)
+	sleep := 200 * time.Microsecond
+	for {
 		if fakeLive() <= baseline {
 			return true
 		}
-		time.Sleep(time.Millisecond)
+		if time.Now().After(deadline) {
+			return fakeLive() <= baseline
+		}
+		time.Sleep(sleep)
+		if sleep < 20*time.Millisecond {
+			sleep *= 2
+		}
 	}
-	return fakeLive() <= baseline
 }
 
 var c18 = Check[cancelCase]{
